@@ -203,6 +203,60 @@ Example C09_selection_nonvacuous :
 Proof. split; vm_compute; reflexivity. Qed.
 
 
+(* ---- bulks: Popen.work(bulk) handles every task of the bulk on its own
+        (model: work_st threads the shared launcher objects' states through
+        the bulk; handle cs t = the task alone on fresh launchers) ---- *)
+
+(* work bulk = map handle bulk, from any launcher states *)
+Theorem C09_bulk_is_map : forall cs bulk sts,
+  work_st cs sts bulk = map (fun t => snd (handle_st cs sts t)) bulk.
+Proof. exact work_st_map. Qed.
+Print Assumptions C09_bulk_is_map.
+
+(* bulk independence: launcher and command of task t in ANY bulk are those of
+   t alone *)
+Theorem C09_bulk_task_alone : forall cs a t b,
+  nth_error (work cs (a ++ t :: b)) (length a) = Some (handle cs t).
+Proof. exact bulk_task_alone. Qed.
+Print Assumptions C09_bulk_task_alone.
+
+(* a refused task is FAILED and changes nothing for the others *)
+Theorem C09_bulk_refused_neutral : forall cs a r b, handle cs r = HFailed ->
+  work cs (a ++ r :: b) = work cs a ++ HFailed :: work cs b /\
+  work cs (a ++ b) = work cs a ++ work cs b.
+Proof. exact bulk_refused_neutral. Qed.
+Print Assumptions C09_bulk_refused_neutral.
+
+(* a launched task was launched by the first launcher of the launch order
+   whose can_launch accepts it, with that launcher's command for this task *)
+Theorem C09_bulk_launcher_is_own : forall cs t i cmd, handle cs t = HLaunched i cmd ->
+  exists c, find_launcher cs t = inr (Some (i, c)) /\ nth_error cs i = Some c /\
+            can_launch c t = inr true /\ snd (get_launch_cmds c [] t) = inr cmd.
+Proof. exact handle_launched. Qed.
+Print Assumptions C09_bulk_launcher_is_own.
+
+(* the bulk oracle clauses hold on the model for every bulk of valid tasks
+   over launch orders of proved launch methods *)
+Theorem C09_bulk_rows_hold : forall cs bulk,
+  (forall t, In t bulk -> valid t) -> (forall c, In c cs -> proven c) ->
+  all2 (bulk_launcher_is_own cs) bulk (work cs bulk) = true /\
+  all2 (bulk_cmd_matches_placement cs) bulk (work cs bulk) = true.
+Proof. exact bulk_rows_hold. Qed.
+Print Assumptions C09_bulk_rows_hold.
+
+(* non-vacuity: agent on node 10, order FORK, SSH, MPIRUN; a bulk of a refused
+   task (no executable), a local task, a remote task and a two-rank MPI task *)
+Example C09_bulk_nonvacuous :
+  let mk := fun l => Build_cfg l false false false false false OMPI false false false false 20
+                       false false 1 false 64 4 10 0 [] false true in
+  let cs := [mk FORK; mk SSH; mk MPIRUN] in
+  let one := fun n exe => Build_task [sl n 0] [] 1 1 0 false exe 0 false false false false in
+  let two := Build_task [sl 3 0; sl 4 0] [] 2 1 0 true true 0 false false false false in
+  map (fun h => match h with HFailed => None | HLaunched i _ => Some i end)
+      (work cs [one 10 false; one 10 true; one 3 true; two])
+  = [None; Some 0%nat; Some 1%nat; Some 2%nat].
+Proof. vm_compute. reflexivity. Qed.
+
 (* ---- error path: the host / rank / node / ERF file cannot be written into
         the task sandbox (t_wfail).  The enactment theorems above hold for
         every task, with or without the fault ("emitted => enacts"); in
